@@ -281,9 +281,13 @@ func runC11(c *core.Ctx) error {
 			}
 			pool = append(pool, pooled{n: n, first: fullSnapshot(n), how: how})
 		}
+		corrupt := false
 		checkAll := func(after string) {
 			for i := range pool {
 				if s := fullSnapshot(pool[i].n); s != pool[i].first {
+					// a finished node has changed: from here on the pool may hold anything (a node that contains itself, say):
+					// the history ends here
+					corrupt = true
 					c.Fail("C11/finished-node-changed", core.Replay{Kind: "oracle", Case: fmt.Sprintf("c11.history #%d: %s", h, strings.Join(hist, " ; ")),
 						Impl: truncateStr(s, 500), Expected: truncateStr(pool[i].first, 500), Detail: fmt.Sprintf("node %d (%s) reads differently after: %s", i, pool[i].how, after)})
 					pool[i].first = s
@@ -531,6 +535,9 @@ func runC11(c *core.Ctx) error {
 			}
 			hist = append(hist, what)
 			checkAll(what)
+			if corrupt {
+				break
+			}
 			if len(pool) > 80 {
 				pool = pool[len(pool)-60:]
 			}
